@@ -2,7 +2,7 @@
 #include "driver.h"
 namespace vd
 {
-    __attribute__((weak)) js::val mode_values(const js::val&) { throw std::runtime_error("values: not implemented"); }
+
     __attribute__((weak)) js::val mode_mt(const js::val&) { throw std::runtime_error("mt: not implemented"); }
     __attribute__((weak)) js::val mode_api(const js::val&) { throw std::runtime_error("api: not implemented"); }
     __attribute__((weak)) js::val mode_pbo(const js::val&) { throw std::runtime_error("pbo: not implemented"); }
